@@ -63,6 +63,88 @@ theorem md_stable (k : Key) (sfx : Nat) : ∀ (more : List Op) (s : State), Good
           (by intro x hx; rw [h1] at hx; simp at hx; subst hx; exact hi1) b' hb''
         exact absurd hinc this
 
+/-! ### movable metadata survives the completion of its blob -/
+
+/-- the metadata calls proper on `(k, sfx)` (the completion of `k` is not one of them) -/
+def writesMd : Op → Key → Nat → Bool
+  | .setMd k' _ m, k, sfx => k' = k && m.sfx = sfx
+  | .delMd k' _ sfx', k, sfx => k' = k && sfx' = sfx
+  | .writeAtMd k' _ sfx' _ _, k, sfx => k' = k && sfx' = sfx
+  | _, _, _ => false
+
+theorem mdGet_filter_of_movable (mds : List Md) (sfx : Nat) (m : Md) (h : mdGet mds sfx = some m)
+    (hm : m.movable = true) : mdGet (mds.filter (·.movable)) sfx = some m := by
+  induction mds with
+  | nil => simp [mdGet] at h
+  | cons x mds ih =>
+    unfold mdGet at h ih ⊢
+    by_cases hs : x.sfx = sfx
+    · rw [List.find?_cons_of_pos (by simp [hs])] at h
+      injection h with h; subst h
+      rw [List.filter_cons_of_pos (by simp [hm]), List.find?_cons_of_pos (by simp [hs])]
+    · rw [List.find?_cons_of_neg (by simp [hs])] at h
+      by_cases hx : x.movable = true
+      · rw [List.filter_cons_of_pos (by simp [hx]), List.find?_cons_of_neg (by simp [hs])]
+        exact ih h
+      · rw [List.filter_cons_of_neg (by simp [hx])]
+        exact ih h
+
+/-- one step keeps a movable metadata entry of a blob that stays in the store, unless it is a
+    metadata call on that very entry -/
+theorem md_frame_movable (s : State) (o : Op) (k : Key) (sfx : Nat) (hw : writesMd o k sfx = false)
+    {b b' : Blob} (hb : s.blobs.get k = some b) (hb' : (step s o).blobs.get k = some b')
+    (m : Md) (hm : mdGet b.mds sfx = some m) (hmov : m.movable = true) : mdGet b'.mds sfx = some m := by
+  by_cases ht : touchesMd o k sfx = false
+  · rw [md_frame s o k sfx ht hb hb']; exact hm
+  · -- the only operation that touches without writing is the completion of `k`
+    cases o with
+    | markComplete k0 =>
+      have hk : k0 = k := by simpa [touchesMd] using ht
+      subst hk
+      simp only [step, apply, markComplete, hb] at hb'
+      split at hb'
+      · rw [hb] at hb'; simp at hb'; rw [← hb']; exact hm
+      · rw [BMap.get_set_self] at hb'; simp at hb'; rw [← hb']
+        exact mdGet_filter_of_movable _ _ _ hm hmov
+    | setMd k0 sc m0 => simp [touchesMd, writesMd] at ht hw; exact absurd ht.2 (hw ht.1)
+    | delMd k0 sc sfx0 => simp [touchesMd, writesMd] at ht hw; exact absurd ht.2 (hw ht.1)
+    | writeAtMd k0 sc sfx0 p off => simp [touchesMd, writesMd] at ht hw; exact absurd ht.2 (hw ht.1)
+    | _ => simp [touchesMd] at ht
+
+/-- **a movable metadata entry is read back along whole histories, across the completion of its
+blob**: from any state with unique incarnation numbers, after any history that contains no
+`SetMetadata`/`DeleteMetadata`/`WriteAtMetadata` on `(k, sfx)` — `MarkComplete(k)` is allowed —, if `k`
+is still the same incarnation, the entry is still there -/
+theorem md_stable_movable (k : Key) (sfx : Nat) (m : Md) (hmov : m.movable = true) :
+    ∀ (more : List Op) (s : State), GoodInc s → (∀ o ∈ more, writesMd o k sfx = false) →
+    ∀ b b', s.blobs.get k = some b → mdGet b.mds sfx = some m →
+      ((sys s.cap).runFrom s more).blobs.get k = some b' → b'.inc = b.inc → mdGet b'.mds sfx = some m := by
+  intro more
+  induction more with
+  | nil =>
+    intro s _ _ b b' hb hm hb' _
+    simp [Sys.runFrom] at hb'
+    rw [hb] at hb'; simp at hb'; rw [← hb']; exact hm
+  | cons o more ih =>
+    intro s hg hno b b' hb hm hb' hinc
+    have hcap : (step s o).cap = s.cap := step_cap s o
+    have ho : writesMd o k sfx = false := hno o (by simp)
+    have hrest : ∀ o' ∈ more, writesMd o' k sfx = false := fun o' h => hno o' (by simp [h])
+    have hb'' : ((sys (step s o).cap).runFrom (step s o) more).blobs.get k = some b' := by
+      rw [hcap]; exact hb'
+    have hlt : b.inc < (step s o).nextInc := Nat.lt_of_lt_of_le (hg.lt k b hb) (step_nextInc s o)
+    cases h1 : (step s o).blobs.get k with
+    | none =>
+      have := inc_gone k b.inc more (step s o) hlt (by intro x hx; rw [h1] at hx; simp at hx) b' hb''
+      exact absurd hinc this
+    | some b1 =>
+      by_cases hi1 : b1.inc = b.inc
+      · have hf := md_frame_movable s o k sfx ho hb h1 m hm hmov
+        exact ih (step s o) (goodInc_step hg o) hrest b1 b' h1 hf hb'' (hinc.trans hi1.symm)
+      · have := inc_gone k b.inc more (step s o) hlt
+          (by intro x hx; rw [h1] at hx; simp at hx; subst hx; exact hi1) b' hb''
+        exact absurd hinc this
+
 theorem goodInc_run (cap : Nat) (ops : List Op) : GoodInc ((sys cap).run ops) :=
   Sys.run_inv (sys cap) GoodInc (goodInc_init cap) (fun _ o h => goodInc_step h o) ops
 
